@@ -124,6 +124,14 @@ type Driver struct {
 	NextWid   int
 	Big       bool // use offsets around the 8 MiB tract boundaries
 	MaxTracts int
+	// Wide: spread client operations over all MaxTracts tracts of a blob (small operations inside single
+	// tracts far apart, operations spanning a tract boundary), so that a caching client's tract cache gets
+	// gaps; AckCheck: run the replica check of the written blob right after every acknowledged write;
+	// AllTracts: the replica check covers every durable tract of a blob, also those beyond the oracle's extent
+	// ("no other tract changed"). All off by default (additive; the other Cluster properties do not set them).
+	Wide      bool
+	AckCheck  bool
+	AllTracts bool
 	Events    []*Event
 	Bads      []Bad
 	Case      string
@@ -619,6 +627,9 @@ func (d *Driver) after(ev *Event) *Event {
 			if res.Err == core.NoError && res.N == m.n {
 				d.Acks++
 				m.rec.Status, m.rec.AckIdx = WAcked, d.Acks
+				if d.AckCheck {
+					d.checkBlobReplicas(d.Blobs[m.blob])
+				}
 			} else {
 				m.rec.Status = WFailed
 				if res.Err == core.NoError {
@@ -733,16 +744,27 @@ func (d *Driver) checkClientRead(m *opMeta, res OpResult) {
 // ("whichever replica answers").
 func (d *Driver) CheckAllReplicas() {
 	for _, b := range d.Blobs {
+		d.checkBlobReplicas(b)
+	}
+}
+
+func (d *Driver) checkBlobReplicas(b *BlobState) {
+	{
 		ext := b.O.Extent()
 		if ext == 0 {
-			continue
+			return
 		}
 		nt := int((ext + TractLen - 1) / TractLen)
+		if d.AllTracts {
+			if n := d.Cl.D.NumTracts(b.ID); n > nt {
+				nt = n
+			}
+		}
 		for tr := 0; tr < nt; tr++ {
 			tid := d.tractID(b.Idx, tr)
 			lo := int64(tr) * TractLen
 			hi := lo + TractLen
-			if hi > ext {
+			if hi > ext && !d.AllTracts {
 				hi = ext
 			}
 			type view struct {
@@ -823,6 +845,31 @@ func (d *Driver) writeShape(b *BlobState) (int64, int) {
 	r := d.R
 	ext := b.O.Extent()
 	maxEnd := int64(d.MaxTracts) * TractLen
+	if d.Wide {
+		nt := d.Cl.D.NumTracts(b.ID)
+		switch k := r.Intn(10); {
+		case nt < d.MaxTracts && k < 4:
+			// start the next tract (sometimes skipping one, which becomes a hole tract)
+			t := nt
+			if t+1 < d.MaxTracts && r.Chance(1, 4) {
+				t++
+			}
+			return int64(t)*TractLen + int64(r.Range(0, 150)), r.Range(1, 160)
+		case nt >= 2 && k < 8:
+			// across the boundary between two existing tracts
+			hiB := nt - 1
+			if hiB > d.MaxTracts-1 {
+				hiB = d.MaxTracts - 1
+			}
+			bnd := int64(r.Range(1, hiB)) * TractLen
+			off := bnd - int64(r.Range(1, 120))
+			return off, int(bnd-off) + r.Range(1, 120)
+		case nt >= 1:
+			// inside one existing tract
+			t := r.Intn(nt)
+			return int64(t)*TractLen + int64(r.Range(0, 300)), r.Range(1, 160)
+		}
+	}
 	var off int64
 	n := r.Range(1, 160)
 	switch k := r.Intn(10); {
@@ -856,6 +903,20 @@ func (d *Driver) readShape(b *BlobState) (int64, int) {
 	ext := b.O.Extent()
 	if ext == 0 {
 		return 0, r.Range(1, 50)
+	}
+	if d.Wide {
+		if nt := d.Cl.D.NumTracts(b.ID); nt >= 1 {
+			switch k := r.Intn(20); {
+			case k < 12:
+				// a small read inside one tract (a caching client also learns the following tract)
+				t := r.Intn(nt)
+				return int64(t)*TractLen + int64(r.Range(0, 100)), r.Range(1, 120)
+			case k < 17 && nt >= 2:
+				bnd := int64(r.Range(1, nt-1)) * TractLen
+				off := bnd - int64(r.Range(1, 100))
+				return off, int(bnd-off) + r.Range(1, 100)
+			}
+		}
 	}
 	if len(b.O.Writes) > 0 && r.Chance(2, 3) {
 		w := b.O.Writes[r.Intn(len(b.O.Writes))]
